@@ -204,8 +204,7 @@ def report(ctx, binp, env, st, label):
             continue
         seen_keys.add(key)
         okey = key
-        if key == "second-identify-cleartext" and TREE_HAS_F30[0]:
-            key = key + ":tree-has-F30"  # the open finding is about the tree before F30 only
+        # F30 (/repo d6aa4e3) is committed: `second-identify-cleartext` is listed fixed, a reproduction is a VIOLATION
         if idx is not None and idx < len(st.ops) and st.stream != "gateia":
             lines, ok = shrink(ctx, binp, env, st, idx, lambda r, key=okey: any(k == key for k, _, _ in r.fails))
             body = "# C11 oracle failure %s\n# %s\n# replay: ./check C11 --replay <this file>%s\n%s\n" % (
